@@ -243,6 +243,15 @@ func VerifTrackerHistory() {
 					s.login = which
 				}
 			}
+			if wild && pidStr == "" {
+				// records of a session whose LOGIN record was not seen still name a process: that of a
+				// login (cron/su started from an SSH shell share nothing, but PIDs do collide) or a foreign one
+				if w := verifrt.Choose("stray-pid", L+1); w < L {
+					pidStr = logins[w].pidStr
+				} else {
+					pidStr = foreign
+				}
+			}
 			ev := &aucoalesce.Event{Session: sid, Type: auparse.AuditMessageType(typ), Result: "success", Timestamp: verifrt.Unix(step)}
 			ev.Process.PID = pidStr
 			ev.Summary.Action = tag
@@ -291,6 +300,7 @@ func VerifTrackerHistory() {
 				s.addedLo, s.addedHi = t0, t1
 			}
 			verifrt.Assert(pfx+".event-noerr", err == nil)
+			verifrt.Assert("c04.event-noerr", err == nil)
 		case 2: // cleanup of uncorrelated sessions
 			cut := verifrt.Int("cut", 0, 1000)
 			ct := verifrt.Unix(cut)
